@@ -132,6 +132,8 @@ class Gen:
 
     def pplit(self, t, v):
         if t is ULONG:
+            if v >= 2 ** 63 and self.ch.int(0, 3) == 0:
+                return '%d' % v         # too large for intmax_t: taken as uintmax_t (gcc and clang agree, with a warning)
             return self.ch.choice(['%du', '%dU', '0x%xu', '%dul', '%dULL']) % v
         if v < 0:
             return '(-%d)' % -v if v != LONG.min() else '(-9223372036854775807-1)'
